@@ -31,7 +31,7 @@ CHECK = {
              "checked at the transport; at wind-down (faults off, links up, hold invoices resolved) the conservation equalities are checked. non-trivial = a payment "
              "completed (and, in fault arms, completed after a fault fired); distinct = distinct event-trace hash",
         states_measure="distinct (per-connection queue lengths, payments in flight, Bob's pending/open circuits, faults so far) tuples",
-        expected_probes=["probe_delivered_behind_unprocessed_message", "probe_forward_success", "probe_forward_failed_back", "probe_bob_settles_upstream", "probe_bob_fails_upstream", "probe_hold_settled",
+        expected_probes=["absence_liveness_checks", "fault_cut_inside_write_quit_visible_at_once", "fault_cut_inside_write_then_long_absence", "probe_delivered_behind_unprocessed_message", "probe_forward_success", "probe_forward_failed_back", "probe_bob_settles_upstream", "probe_bob_fails_upstream", "probe_hold_settled",
                          "probe_hold_cancelled", "probe_cut_with_payments_inflight", "probe_bob_reboot_with_circuits", "probe_payment_completed_after_fault",
                          "fault_cut", "fault_cut_inside_write", "probe_reboot_with_unacked_settlefail_only_pkg", "fault_cut_lost_messages", "fault_restart_bob", "fault_crash_before_fired", "fault_crash_after_fired", "fault_fee_change"],
         real_vs_stub=SWITCHSIM_STUB, assumptions=SWITCHSIM_ASSUME,
